@@ -10,5 +10,6 @@ cd "$(dirname "$0")/.."
 VERIF_REPO="$D" VERIF_EVIDENCE_DIR="$D/.evidence" ./check "$PROP" --tier "$TIER" 2>&1 | grep -v "WARNING conda" | tail -12
 RC=${PIPESTATUS[0]}
 rm -rf "$D"
+./check --regen >/dev/null 2>&1   # Generated/*.lean back to what /repo says (the run above regenerated them from the scratch copy)
 echo "mutant exit=$RC"
 exit $RC
